@@ -236,7 +236,20 @@ def run_histories(histories, timeout=600, shards=NCPU, want_model=True, want_spe
 _SNAP_RE = re.compile(r"cap=(\d+) next=(\d+) bc=(\d+) sc=(\d+) V\[(.*?)\] B\[(.*?)\] S\[(.*?)\]$")
 
 
+_SNAP_CACHE = {}
+
+
 def parse_snapshot(s):
+    """parsed snapshots are shared (never mutate the result); the cache makes the bfs tours affordable"""
+    r = _SNAP_CACHE.get(s)
+    if r is None:
+        r = _parse_snapshot(s)
+        if len(_SNAP_CACHE) < 400000:
+            _SNAP_CACHE[s] = r
+    return r
+
+
+def _parse_snapshot(s):
     m = _SNAP_RE.match(s.strip())
     if not m:
         return None
